@@ -100,8 +100,8 @@ package tracer
 //@ func (*dataTracer).trace
 //@   requires d != nil && !held[d.mu] && (wfTracer(d) || (d.builder == nil && !d.isStreamProtocol)) //# without builder (no headers seen yet) the bytes are only counted
 //@   requires len(data) > 0 ==> slicebase(data) != slicebase(d.prefix) //# the tracer's private prefix buffer is not the caller's buffer
-//@   modifies trS, held, dataTracer.prefix, dataTracer.env, dataTracer.expecting, dataTracer.actual, dataTracer.endStream, []byte, Envelope.*, bufContent,
-//@            ghosts:cpl*, held, Trace.*, evN, evKind, evLen, evEnv, builder.*, RequestBodyData.*, ResponseBodyData.*, ResponseBodyEndStream.*, eventOffset.*, []Event, http.Request.*
+//@   modifies trS, held @ d.mu, held @ d.builder.mu, dataTracer.prefix @ d, dataTracer.env @ d, dataTracer.expecting @ d, dataTracer.actual @ d, dataTracer.endStream @ d, []byte, Envelope.*, bufContent,
+//@            ghosts:cpl*, Trace.*, evN, evKind, evLen, evEnv, builder.*, RequestBodyData.*, ResponseBodyData.*, ResponseBodyEndStream.*, eventOffset.*, []Event, http.Request.*
 //@   assume_ensures trS == old(trS)[d := old(trS[d]) + bytes(data)] //# ghost bookkeeping: the byte stream seen by this tracer
 //@   ensures (old(d.builder) != nil ==> wfTracer(d)) && !held[d.mu] && d.builder == old(d.builder) && d.isStreamProtocol == old(d.isStreamProtocol)
 //@   ensures @events evN[d.builder] >= old(evN[d.builder])
@@ -119,8 +119,8 @@ package tracer
 // bytes, or payload bytes of the open envelope); afterwards the machine is idle.
 //@ func (*dataTracer).emitUnfinished
 //@   requires d != nil && !held[d.mu] && (wfTracer(d) || (d.builder == nil && !d.isStreamProtocol && d.actual == 0 && len(d.prefix) == 0)) //# an idle tracer without builder has nothing to emit
-//@   modifies held, dataTracer.prefix, dataTracer.env, dataTracer.expecting, dataTracer.actual, dataTracer.endStream,
-//@            ghosts:cpl*, held, Trace.*, evN, evKind, evLen, evEnv, builder.*, RequestBodyData.*, ResponseBodyData.*, eventOffset.*, []Event, http.Request.*
+//@   modifies held @ d.mu, held @ d.builder.mu, dataTracer.prefix @ d, dataTracer.env @ d, dataTracer.expecting @ d, dataTracer.actual @ d, dataTracer.endStream @ d,
+//@            ghosts:cpl*, Trace.*, evN, evKind, evLen, evEnv, builder.*, RequestBodyData.*, ResponseBodyData.*, eventOffset.*, []Event, http.Request.*
 //@   ensures (old(d.builder) != nil ==> wfTracer(d)) && !held[d.mu] && d.builder == old(d.builder)
 //@   ensures @idle d.expecting == 0 && d.actual == 0 && len(d.prefix) == 0 && d.env == nil && d.endStream == nil
 //@   ensures @atmostone evN[d.builder] >= old(evN[d.builder]) && evN[d.builder] <= old(evN[d.builder]) + 1
